@@ -25,7 +25,7 @@ class Prop:
     run_fn = "run_mut"
     shard = 8
     rule = ("(a) corpus: witnesses of D06 D20 D21 D22 D23 D70 (each fails on the unchanged code); (b) exhaustive groups: source tree = every "
-            "ordered forest with 1..N nodes (N=3 quick, 4 thorough; thorough adds 5 deeper shapes of 4-5 nodes) x 2 labelings (clones in "
+            "ordered forest with 1..3 nodes x 2 labelings (thorough: also all 14 forests of 4 nodes and 5 deeper shapes of 4-5 nodes under the first labeling; quick: 3 of the deeper shapes) (clones in "
             "different parents + explicit str/int data_ids on equal-comparing distinct objects + a frozen dataclass | all nodes "
             "equal-comparing distinct objects under explicit ids) x plain/typed (kinds k1/k2 alternating), metadata on two source nodes, "
             "a second tree x[z],y as target; on it EVERY copy operation with EVERY argument: add(node) of every source node x deep "
@@ -37,7 +37,7 @@ class Prop:
             "source or on the copy (set_meta/clear_meta/update_meta, set_data, rename, sort, remove x keep_children x with_clones, "
             "remove_children, add, shortcuts, move, add(node), from_dict, filter, del); both sides are re-observed and re-checked after every step. "
             "distinct = distinct (universe, ops); non-trivial = a copy succeeded / some step changed the state")
-    exhaustive_note = "every copy op x every argument on all source forests <= 3 nodes (quick) / <= 4 nodes (thorough) x 2 labelings x plain/typed"
+    exhaustive_note = "every copy op x every argument on all source forests <= 3 nodes x 2 labelings x plain/typed (quick: a rotating fifth of the 3-node alternatives; thorough: also all forests of 4 nodes)"
     assumptions = ["identity of nodes is the allocation index recorded by a harness-side wrapper of Node.__init__",
                    "user callbacks (calc_data_id, sort key, filter predicate) are tables from objects/nodes to values that may raise",
                    "node references of generated ops are live (references to removed nodes are not public operations)"]
@@ -67,11 +67,13 @@ class Prop:
         for c in M.CORPUS7:
             yield dict(kind="hist", univ=c["univ"], ops=c["ops"], corpus=c["id"])
         quick = tier == "quick"
-        groups = list(M.gen_groups(3 if quick else 4, full=not quick))
+        groups = list(M.gen_groups(3, full=not quick))
+        if not quick:
+            groups += list(M.gen_groups(4, nmin=4, labelings=("mixed",)))
         # deeper shapes (depth 3, two grandchildren; a chain of 4): thorough = all five x everything,
         # quick = three of them (two grandchildren, a chain of 4, three grandchildren), 'mixed' labeling, every 4th alternative
         groups += list(M.gen_groups(0, shapes=[M.EXTRA_SHAPES[i] for i in (0, 1, 3)] if quick else M.EXTRA_SHAPES,
-                                    labelings=("mixed",) if quick else ("mixed", "equal"), full=not quick))
+                                    labelings=("mixed",), full=not quick))
         for gi, g in enumerate(groups):
             alts = g["alts"]
             if quick and g["n"] > 3:
@@ -83,7 +85,7 @@ class Prop:
             for i in range(0, len(alts), CHUNK):
                 yield dict(kind="alts", univ=g["univ"], setup=g["setup"], alts=alts[i:i + CHUNK], label=g["label"])
         # histories on small sources: every k-th copy alternative followed by a mutation tail
-        stride = 41 if quick else 5
+        stride = 41 if quick else 15
         j = 0
         for g in groups:
             if g["n"] < 2:
@@ -95,7 +97,7 @@ class Prop:
                 h, _ = M.gen_history(rng, g["setup"], a, rng.randint(4, 10), univ=g["univ"])
                 yield dict(kind="hist", univ=h["univ"], ops=h["ops"], check_from=len(g["setup"]))
         # larger random sources
-        for i in range(25 if quick else 500):
+        for i in range(25 if quick else 300):
             setup, n, typed = M.random_source(rng, 4, 8 if quick else 12)
             h, _ = M.gen_history(rng, setup, M.random_copy_op(rng, n, typed), rng.randint(6, 14 if quick else 25))
             yield dict(kind="hist", univ=h["univ"], ops=h["ops"], check_from=len(setup))
